@@ -4,6 +4,11 @@
 package main
 
 import (
+	"encoding/hex"
+
+	"github.com/cockroachdb/errors/errorspb"
+	"github.com/gogo/protobuf/proto"
+
 	"bufio"
 	"encoding/json"
 	"flag"
@@ -25,6 +30,9 @@ type Case struct {
 	UTok    []string     // tokens that entered through unsafe channels only
 	STok    []string     // tokens that entered through safe channels
 	Hostile bool
+	// wire-level case (C05): the message given to DecodeError and what it returned
+	Enc     *errorspb.EncodedError
+	Decoded error
 }
 
 type runResult struct {
@@ -46,6 +54,15 @@ func runCase(c *Case) (res runResult) {
 
 //go:noinline
 func runCaseInner(c *Case) runResult {
+	if c.Enc != nil {
+		obsSx := L()
+		out := []Sx{Sym("result"), A(c.ID)}
+		for _, o := range c.Obs {
+			obsSx.List = append(obsSx.List, o.Sx())
+			out = append(out, observe(o, c.Decoded, nil))
+		}
+		return runResult{caseLine: L(Sym("deccase"), A(c.ID), encSx(c.Enc), obsSx).String(), obsLine: L(out...).String()}
+	}
 	ctx := &BuildCtx{}
 	var e error
 	var refs []error
@@ -98,6 +115,10 @@ func main() {
 		cmdGen(os.Args[2:])
 	case "replay":
 		cmdReplay(os.Args[2:])
+	case "depth":
+		cmdDepth(os.Args[2:])
+	case "race":
+		cmdRace(os.Args[2:])
 	default:
 		fmt.Fprintln(os.Stderr, "unknown command", os.Args[1])
 		os.Exit(2)
@@ -110,6 +131,7 @@ func cmdGen(args []string) {
 	seed := fl.Uint64("seed", 1, "seed")
 	n := fl.Int("n", 200, "number of random cases")
 	out := fl.String("out", "", "output directory")
+	thorough := fl.Bool("thorough", false, "thorough tier")
 	fl.Parse(args)
 	if *out == "" || *prop == "" {
 		fmt.Fprintln(os.Stderr, "gen: -prop and -out required")
@@ -117,9 +139,15 @@ func cmdGen(args []string) {
 	}
 	os.MkdirAll(*out, 0o755)
 	g := NewGen(*seed)
-	cases := propCases(*prop, g, *n)
+	var cases []*Case
 	var oracleFails []OracleFail
 	oracleEvals := 0
+	var sweep map[string]int
+	if *prop == "C05" {
+		cases, oracleFails, oracleEvals, sweep = c05Cases(g, *n, *thorough)
+	} else {
+		cases = propCases(*prop, g, *n)
+	}
 
 	cf, _ := os.Create(filepath.Join(*out, "cases.sexp"))
 	of, _ := os.Create(filepath.Join(*out, "observed.sexp"))
@@ -137,6 +165,17 @@ func cmdGen(args []string) {
 		cw.WriteByte('\n')
 		ow.WriteString(res.obsLine)
 		ow.WriteByte('\n')
+		if c.R == nil {
+			distinct[c.ID] = true
+			if i < 3 || (i%997 == 0 && len(samples) < 8) {
+				s := res.caseLine
+				if len(s) > 400 {
+					s = s[:400] + "..."
+				}
+				samples = append(samples, s)
+			}
+			continue
+		}
 		c.R.CountOps(stats)
 		d := c.R.Depth()
 		depthHist[d]++
@@ -156,6 +195,9 @@ func cmdGen(args []string) {
 	cf.Close()
 	of.Close()
 	for k, v := range g.Stats {
+		stats[k] = v
+	}
+	for k, v := range sweep {
 		stats[k] = v
 	}
 	meta := map[string]interface{}{
@@ -195,6 +237,7 @@ func cmdReplay(args []string) {
 			STok    []string     `json:"stok"`
 			Prop    string       `json:"prop"`
 			Hostile bool         `json:"hostile"`
+			EncHex  string       `json:"enc_hex"`
 		} `json:"replay_args"`
 	}
 	if err := json.Unmarshal(raw, &f); err != nil {
@@ -202,6 +245,24 @@ func cmdReplay(args []string) {
 		os.Exit(2)
 	}
 	a := f.ReplayArgs
+	if a.EncHex != "" {
+		b, err := hex.DecodeString(a.EncHex)
+		if err != nil {
+			fmt.Fprintln(os.Stderr, err)
+			os.Exit(2)
+		}
+		var dec errorspb.EncodedError
+		if err := proto.Unmarshal(b, &dec); err != nil {
+			fmt.Fprintln(os.Stderr, err)
+			os.Exit(2)
+		}
+		if _, what, detail := decodeTotal(&dec); what != "" {
+			fmt.Printf("replay: STILL FAILING (C05): %s\n  %s\n", what, detail)
+			os.Exit(1)
+		}
+		fmt.Println("replay: the property holds on this input now")
+		return
+	}
 	rx, err := ParseSx(a.Recipe)
 	if err != nil {
 		fmt.Fprintln(os.Stderr, err)
